@@ -25,5 +25,12 @@ func (pass *ReplaceReference) processRef(_ *Visitor, _ *ast.Schema, def ast.Type
 		return def, nil
 	}
 
-	return ast.NewRef(pass.To.Package, pass.To.Object, ast.Trail(fmt.Sprintf("ReplaceReference[%s → %s]", def.Ref, pass.To))), nil
+	newRef := ast.NewRef(pass.To.Package, pass.To.Object, ast.Trail(fmt.Sprintf("ReplaceReference[%s → %s]", def.Ref, pass.To)))
+	newRef.Nullable = def.Nullable
+	newRef.Default = def.Default
+	for hint, value := range def.Hints {
+		newRef.Hints[hint] = value
+	}
+
+	return newRef, nil
 }
